@@ -23,3 +23,13 @@ func VerifSVGIOFault(n int) {
 		return (&Minifier{}).Minify(m, w, r, nil)
 	})
 }
+
+var verifSVGTruncDoc = "<?xml version=\"1.0\"?><!DOCTYPE svg><svg a=\"b\"><!-- c --><?pi x?><![CDATA[y]]><path d=\"M0 0\"/><text> t </text></svg><?foo bar?>"
+
+// VerifSVGIOFaultTruncated: C14 on every prefix of a document that uses every token kind.
+func VerifSVGIOFaultTruncated(n int) {
+	m := minify.New()
+	verifIOFaultTruncated([]byte(verifSVGTruncDoc), func(w io.Writer, r io.Reader) error {
+		return (&Minifier{}).Minify(m, w, r, nil)
+	})
+}
